@@ -8,13 +8,18 @@ from . import ir as X
 from .native import NonTermination
 
 
-def search(P, name, prop, seed, budget=200):
-    """returns None or a failure dict (with 'iteration' so that the replay is exact)"""
+def search(P, name, prop, seed, budget=200, wall_s=None):
+    """returns None or a failure dict (with 'iteration' so that the replay is exact).  wall_s: stop starting new
+    iterations after that many seconds (a found failure is still reproducible: the iterations are deterministic)"""
+    import time
     rng = random.Random(f"{seed}:{name}:{prop}")
     decl = P.decls[name]
     fn = {"C02": _c02, "C16": _c16, "C15": _c15, "C19": _c19, "C03": _c03, "C01": _c01}[prop]
     evals = 0
+    t0 = time.time()
     for it in range(budget):
+        if wall_s is not None and it > 0 and time.time() - t0 > wall_s:
+            return {"ok": True, "evaluations": evals, "stopped_after_s": round(time.time() - t0, 1), "iterations": it}
         f, n = fn(P, name, decl, rng)
         evals += n
         if f is not None:
@@ -265,7 +270,13 @@ def _c03(P, name, decl, rng):
     out, w = _serialize_outcome(P, name, obj, P.ctx[name])
     data = bytes(w.to_bytearray()) if out == "ok" else b""
     n = 0
-    cands = [data[:c] for c in range(len(data) + 1)]
+    if len(data) <= 192:
+        cuts = range(len(data) + 1)
+    else:
+        # long serializations (boundary-length arrays): every prefix would make one iteration quadratic - the first and
+        # last 64 cut points and 64 drawn in between
+        cuts = sorted(set(range(65)) | set(range(len(data) - 64, len(data) + 1)) | {rng.randrange(len(data)) for _ in range(64)})
+    cands = [data[:c] for c in cuts]
     # a break byte at every position (inserted, substituted): what chunked reading is sensitive to
     for j in range(min(len(data), 24) + 1):
         cands.append(data[:j] + b"\xff" + data[j:])
